@@ -41,6 +41,8 @@ def witnesses():
         Nd("Seq", 1, [L("succ", 1), L("fail", 0), L("succ", 0)], to=2),
         Nd("Par", 2, [L("fail", 0), L("succ", 1), L("never")]),
         Nd("Par", 1, [L("block", 1), L("fail", 1)]),
+        Nd("Par", 2, [L("succ", 1), L("fail", 0), L("never")]),           # decisive result recorded while paused, lower index
+        Nd("Seq", 0, [Nd("Par", 1, [L("fail", 1), L("never"), L("succ", 0)]), L("succ", 1)]),
         Nd("IfElse", 0, [L("succ", 1), L("fail", 0), L("succ", 0)]),
         Nd("IfElse", 0, [L("fail", 0), L("succ", 0), None]),
         Nd("IfThen", 0, [L("fail", 0), L("succ", 0), L("succ", 1), L("fail", 1)]),
@@ -93,6 +95,31 @@ def regressions():
     ]:
         for sc in scripts:
             res.append({"prog": P.flatten(prog), "script": sc, "passes": len(sc) + 6})
+    return res
+
+
+def parallel_pause_family(full):
+    """Systematic family for the pause window of Parallel(AnyFail/AnySucc): 3 children with mixed results in every order, one
+    of them never finishing, each driven by the scripts that let finishes arrive before / while the parallel is paused.
+    (Which recorded result is decisive must not depend on the order or the index of the children.)  Also nested in a Sequence
+    so that the continuation after the parallel is observed."""
+    L, Nd = P.L, P.Nd
+    alpha = [("succ", 0), ("succ", 1), ("fail", 0), ("fail", 1)] + ([("succ", 2), ("fail", 2)] if full else [])
+    scripts = [["start", "pause", "resume"], ["start", "-", "pause", "resume"], ["start", "pause", "-", "resume"],
+               ["start+pause", "resume"], ["start", "~pause", "resume"], ["start", "-", "~pause", "-", "resume"]]
+    res = []
+    for m in (1, 2):
+        for pos in range(3):
+            for a in alpha:
+                for b in alpha:
+                    if a[0] == b[0] and not full:
+                        continue                      # quick: mixed results only
+                    kids = [L(*a), L(*b)]
+                    kids.insert(pos, L("never"))
+                    par = Nd("Par", m, kids)
+                    for i, sc in enumerate(scripts):
+                        tree = par if (i % 2 == 0) else Nd("Seq", 0, [P.clone(par), L("succ", 1)])
+                        res.append({"prog": P.flatten(tree), "script": sc, "passes": len(sc) + 7})
     return res
 
 
@@ -246,10 +273,10 @@ def run_checked(ctx):
     # ---- 2. spec -> code: TLC-enumerated scripts executed on the real trees -------------------------------------------
     progs_w = [P.flatten(t) for t in wit]
     behs = ctx.tlc_gen("Flow", "Gen_ActionTree.tla", "Gen_ActionTree.cfg", env={"PROGS": pw})
-    jobs = regressions() + jobs_from_behaviours(progs_w, behs)
+    jobs = regressions() + parallel_pause_family(not quick) + jobs_from_behaviours(progs_w, behs)
     ctx.sample({"kind": "TLC-enumerated control script executed on the real tree", "program": jobs[len(jobs) // 2]["prog"],
                 "script": jobs[len(jobs) // 2]["script"]})
-    ok, n, tr = validate(ctx, exe, jobs, "gen_bfs", "regression scenarios + all scripts (<=3 effective calls, 4 passes) of the witness programs")
+    ok, n, tr = validate(ctx, exe, jobs, "gen_bfs", "regression scenarios + Parallel pause-window family + all scripts (<=3 effective calls, 4 passes) of the witness programs")
     if ok:
         ctx.traces_ok -= n
         ctx.replays_ok += n
